@@ -153,8 +153,12 @@ func (sc *c12Scenario) Run(s *simrt.Sim) {
 			s.Sleep(time.Nanosecond) // distinct time.Now() ids
 			var a *fpgo.ActorDef[int]
 			switch {
+			case p < 0 && sc.Cap == 0 && sc.Yields == 1:
+				a = (&fpgo.ActorDef[int]{}).New(effect) // method-style constructor
 			case p < 0 && sc.Cap == 0:
 				a = fpgo.ActorNewGenerics(effect)
+			case p < 0 && sc.Yields == 1:
+				a = (&fpgo.ActorDef[int]{}).NewByOptions(effect, make(chan int, sc.Cap), map[string]interface{}{})
 			case p < 0:
 				a = fpgo.ActorNewByOptionsGenerics(effect, make(chan int, sc.Cap), map[string]interface{}{})
 			default:
